@@ -187,7 +187,7 @@ HARNESSES = {'kernel_noreplace': h_kernel_noreplace, 'kernel_replace': h_kernel_
 
 def jobs(tier):
     out = []
-    kn = [(2, 3, n) for n in (1, 2, 3)] if tier == 'quick' else [(2, 3, n) for n in (1, 2, 3)] + [(1, 4, n) for n in (1, 2, 3, 4)] + [(3, 2, 2)]
+    kn = [(2, 3, n) for n in (1, 2, 3)] + [(1, 4, 2), (1, 4, 4)] if tier == 'quick' else [(2, 3, n) for n in (1, 2, 3)] + [(1, 4, n) for n in (1, 2, 3, 4)] + [(3, 2, 2)]
     for nv, ml, n in kn:
         out.append(('kernel_noreplace', (nv, ml, n)))
         out.append(('kernel_replace', (nv, ml, n)))
